@@ -148,7 +148,9 @@ def read_data(fh, mcnp_version, block_type=None, recursion=False):
             read_input = ReadInput(
                 input_raw_lines, block_type, current_file, start_line
             )
-            reading_queue.append((block_type, read_input.file_name, current_file.path))
+            reading_queue.append(
+                (block_type, read_input.file_name, current_file.path, read_input)
+            )
             yield None
         except ValueError as e:
             if isinstance(e, ParsingError):
@@ -199,9 +201,23 @@ def read_data(fh, mcnp_version, block_type=None, recursion=False):
 
     if not recursion:
         path = os.path.dirname(fh.name)
+        # for every file read so far: the files that led to it, read input by read input.
+        # A file that is read from itself, directly or through other files, would be read forever.
+        lineage = {os.path.realpath(fh.name): frozenset()}
         while reading_queue:
-            block_type, file_name, parent = reading_queue.popleft()
-            new_wrapper = MCNP_InputFile(os.path.join(path, file_name), parent)
+            block_type, file_name, parent, read_input = reading_queue.popleft()
+            file_path = os.path.join(path, file_name)
+            parent_key = os.path.realpath(parent)
+            ancestors = lineage.get(parent_key, frozenset()) | {parent_key}
+            file_key = os.path.realpath(file_path)
+            if file_key in ancestors:
+                raise MalformedInputError(
+                    read_input,
+                    f"The file {file_name} is read from itself by a chain of read inputs; "
+                    f"this read input is in {parent}.",
+                )
+            lineage[file_key] = lineage.get(file_key, frozenset()) | ancestors
+            new_wrapper = MCNP_InputFile(file_path, parent)
             with new_wrapper.open("r") as sub_fh:
                 new_wrapper = MCNP_InputFile(file_name, parent)
                 for input in read_data(sub_fh, mcnp_version, block_type, True):
